@@ -65,8 +65,8 @@ func (w *vpBuf) Write(p []byte) (int, error) { w.b = append(w.b, p...); return l
 
 func vpN() int {
 	if vp.Tier() == 0 {
-		return 7
+		return 9
 	}
-	return 10
+	return 11
 }
 
